@@ -18,3 +18,5 @@ python3 tools/derive_unit.py contracts/C26/write_txn.toml contracts/C07/txn_step
 python3 tools/derive_unit.py contracts/C26/write_txn.toml contracts/C04/commit_order.toml C04 commit_order 'stored_ok' \
   --not-covered "everything else in C04: operations that fail before commit (abandoned transactions are dropped: Drop of the CowCell / SQLite handles, not under contract), IdmServerProxyWriteTransaction::commit, the id-layer cache commits, storage faults inside the backend (C05)" \
   --append contracts/C04/commit_order.append.txt
+python3 tools/derive_unit.py contracts/C23/search_events.toml contracts/C26/search_events.toml C26 search_events 'visibility_ok' \
+  --not-covered "the other event types and front ends (see the C23 unit), delete / revive"
